@@ -6,7 +6,7 @@ import ast
 
 from .. import rx, lexmodel, leximpl, grammar
 from ..lang import Lang
-from ..minify import MinifierModel, CODE_CLASSES, CLASSES
+from ..minify import MinifierModel
 from ..refs import grammar as G
 from ..srcmodel import walk_own
 from . import cli
@@ -56,9 +56,15 @@ def rule_transducer(ctx, res, mm):
                   'hazards {}'.format(sorted(h.decode() for h in mm.hazards)),
                   'the wrapper drops, duplicates or alters chunks, or does '
                   'not track the last emitted chunk', mm.wrapper.loc)
-    want = {'Name': ('short',), 'Label': ('label',), 'Keyword': ('code',),
-            'Number': ('code',), 'SymClose': ('code',), 'SymOther': ('code',),
-            'String': ('code',)}
+    want_kind = {'Name': ('short',), 'Label': ('label',),
+                 'Keyword': ('code',), 'Number': ('code',),
+                 'Symbol': ('code',), 'String': ('code',)}
+    want = {c: want_kind[mm.kind_of[c]] for c in mm.code_classes}
+    res.tables['minifier_token_classes'] = [
+        '{}: {}'.format(c, ' '.join(sorted(
+            x.decode('latin-1') for x in mm.members[c]))
+            if mm.members[c] else 'any ' + c) for c in mm.classes]
+    CODE_CLASSES = mm.code_classes
     for c in CODE_CLASSES:
         bad = None
         for s in mm.states:
@@ -88,8 +94,20 @@ def rule_transducer(ctx, res, mm):
                   'Space tokens emit nothing', '',
                   'space tokens emit text in state {}'.format(bad[:1]),
                   mm.core.loc)
-    # line structure between two code tokens
-    sep_nl = {}
+    # line structure between two code tokens.  A line end is SIGNIFICANT
+    # after a token that can end a line-scoped shorthand (short-if, `?`) --
+    # the terminals that precede NL in the reference grammar, i.e. everything
+    # that can end a statement; elsewhere (after `,` `(` an operator ...) no
+    # valid program has a significant line end.
+    ends_line = grammar.before_line_end()
+
+    def can_end_line(c):
+        kind = mm.kind_of[c]
+        if mm.members[c] is not None:
+            return bool(mm.members[c] & ends_line)
+        return {'Name': G.NAME, 'Number': G.NUMBER, 'String': G.STRING,
+                'Label': G.LABEL}.get(kind) in ends_line
+    lost = gained = lost_harmless = None
     for (a, s0), (_o, s1) in mm.table.items():
         if a not in CODE_CLASSES:
             continue
@@ -104,7 +122,13 @@ def rule_transducer(ctx, res, mm):
                 o, _ = mm.table[(b, s)]
                 lits = b''.join(x[1] for x in o if x[0] == 'lit')
                 onl = out_nl or b'\n' in lits
-                sep_nl.setdefault((had_nl, onl), (a, b, s))
+                if had_nl and not onl:
+                    if can_end_line(a):
+                        lost = lost or (a, b, s)
+                    else:
+                        lost_harmless = lost_harmless or (a, b, s)
+                if onl and not had_nl:
+                    gained = gained or (a, b, s)
             for fil in ('Space', 'Comment', 'Newline'):
                 o, ns = mm.table[(fil, s)]
                 if fil == 'Comment' and any(x[0] == 'code' for x in o):
@@ -115,15 +139,20 @@ def rule_transducer(ctx, res, mm):
                 if st not in seen:
                     seen.add(st)
                     todo.append(st)
-    lost = sep_nl.get((True, False))
-    gained = sep_nl.get((False, True))
     res.check(lost is None, 'R-C01-transducer', where,
-              'a newline between two code tokens survives',
-              'one line end is kept per run of newline tokens',
+              'a significant newline between two code tokens survives',
+              'one line end is kept per run of newline tokens after every '
+              'token class that can end a statement',
               'a run containing a newline token can produce no line end '
-              '(e.g. {} then {}): two lines merge, a short-if or `?` '
-              'statement swallows the next statement'.format(
-                  *(lost[:2] if lost else ('', ''))), mm.core.loc)
+              'after a token that can end a short-if / `?` line (e.g. {} '
+              'then {}): two lines merge and the shorthand swallows the next '
+              'statement'.format(*(lost[:2] if lost else ('', ''))),
+              mm.core.loc)
+    if lost_harmless is not None:
+        res.info('R-C01-transducer', where,
+                 'line ends dropped after {}'.format(lost_harmless[0]),
+                 'no token of this class can end a statement, so no '
+                 'line-scoped shorthand ends there')
     res.check(gained is None, 'R-C01-transducer', where,
               'no line end appears between tokens of one line', '',
               'a line end is inserted between two tokens of the same line '
@@ -146,16 +175,21 @@ def build_glue_inputs(ctx, mm):
                 if L.not_subset_witness(only) is None:
                     spelling = w
         row_info[i] = (r.kind, spelling)
-    close = getattr(mm, 'close_literal', b'])}')
     sepfn = mm.sep_function()
 
     def cls_of(info):
         kind, sp = info
-        if kind == 'symbol':
-            return 'SymClose' if (sp is not None and sp in close and
-                                  len(sp) == 1) else 'SymOther'
-        return {'name': 'Name', 'label': 'Label', 'keyword': 'Keyword',
-                'number': 'Number', 'string': 'String'}.get(kind)
+        k = {'name': 'Name', 'label': 'Label', 'keyword': 'Keyword',
+             'number': 'Number', 'string': 'String',
+             'symbol': 'Symbol'}.get(kind)
+        if k is None:
+            return None
+        c = mm.class_of(k, sp)
+        if c is None and k in ('Symbol', 'Keyword'):
+            # a spelling the reference tables do not list: C07 reports it
+            cands = [x for x in mm.classes if mm.kind_of[x] == k]
+            c = max(cands, key=lambda x: len(mm.members[x]))
+        return c
 
     def sep_of(infoA, infoB, last_u, first_v):
         a, b = cls_of(infoA), cls_of(infoB)
@@ -200,6 +234,18 @@ def rule_noglue(ctx, res, mm, prop_rule='R-C01-noglue', only_comment=False):
               'separator is a function of the two token classes', '',
               'the separator between {} depends on earlier context'.format(
                   sorted(amb)[:3]), mm.core.loc)
+    if not only_comment:
+        # layouts with line breaks: where the line break is dropped the pair
+        # must get the separator it gets without the line break
+        nl = mm.sep_function(with_newlines=True)
+        bad = sorted((a, b) for (a, b), v in nl.items()
+                     if b'' in v and sepfn.get((a, b)) not in (None, {b''}))
+        res.check(not bad, prop_rule, where,
+                  'a dropped line break is replaced by the separator the '
+                  'pair needs', '{} class pairs'.format(len(nl)),
+                  'tokens separated only by a line break are written with '
+                  'nothing between them although the pair needs a separator: '
+                  '{}'.format(bad[:3]), mm.core.loc)
     stats = {}
     hits = lexmodel.glue_search(impl, row_info, sep_of, adjacent,
                                 extra_bytesets=extra, stats=stats)
@@ -223,6 +269,29 @@ def rule_noglue(ctx, res, mm, prop_rule='R-C01-noglue', only_comment=False):
                 h['first_token'], h['u'],
                 ' into a comment' if is_comment else ''), mm.core.loc,
             extra={'u': repr(h['u']), 'v': repr(h['v']), 'w': repr(h['w'])})
+    if ctx.tier == 'thorough' and not only_comment:
+        # (a) second derivation of the adjacency relation: bounded sentence
+        # enumeration of the reference grammar must stay inside it
+        enum = grammar.enumerate_adjacent(depth=5)
+        extra_pairs = sorted(map(str, enum - grammar.adjacency()))
+        res.check(not extra_pairs, prop_rule, 'pv.refs.grammar',
+                  'adjacency relation covers the enumerated sentences',
+                  '{} pairs from sentences up to depth 5, all inside the '
+                  '{}-pair FIRST/LAST relation'.format(
+                      len(enum), len(grammar.adjacency())),
+                  'pairs found by enumeration but missing from the '
+                  'relation: {}'.format(extra_pairs[:5]))
+        # (b) hazards between pairs that can never be neighbours: report only
+        hits_all = lexmodel.glue_search(
+            impl, row_info, sep_of, lambda a, b: True,
+            extra_bytesets=extra)
+        nonadj = [h for h in hits_all if not adjacent(h['A'], h['B'])]
+        res.stats['non_adjacent_gluing_pairs'] = len(nonadj)
+        for h in nonadj[:80]:
+            res.info(prop_rule, where, '{} . {} (never adjacent)'.format(
+                name(h['A']), name(h['B'])),
+                '{!r}+{!r} would fuse, but the grammar never puts them next '
+                'to each other'.format(h['u'], h['v']))
     if n == 0:
         res.holds(prop_rule, where,
                   'no adjacent token pair fuses' if not only_comment else
